@@ -26,6 +26,23 @@ CLAIMS = {
         'note': 'Lean kernel + standard axioms; hand-written model of showdown.rs tied by the correspondence (tie-heavy boards, collisions at every position); depends on C01.',
         'design_ref': 'DESIGN.md §6 C03',
     },
+    'C04': {
+        'text': 'C04_scoped (= the refinement theorem at an arbitrary scope [a, b)): the scoped iterator yields exactly the legal deals at positions a <= p < b in order; '
+                'C04_exhausted: any number of further next() calls return None and leave the state unchanged; C04_chain / deals_append: the deals of consecutive scopes '
+                'concatenate to the deals of the enclosing scope (every chain from (0,1) to (48,49) reproduces the full run); C04_rescope: the last scope() call wins; '
+                'C04_default_scope: the unscoped evaluator is the (0,1)-(48,49) one.',
+        'note': 'as C02 (same model, same tie); scope defaults and the river rollover literal are read from the source each run.',
+        'design_ref': 'DESIGN.md §6 C04',
+    },
+    'C08': {
+        'text': 'C08_total: for every proper input (ranges of any size, empty allowed) and scope the drain returns normally - no panic arm (index out of range, unwrap) is '
+                'reachable and the loop fuel is never exhausted; C08_empty: an empty range makes the enumeration empty; C08_yield_bound; C08_no_recursion: the source of fn next '
+                'contains no self call (read by the translator each run). PARTIAL: native stack use and allocator failure are runtime facts outside any Lean model; they are '
+                'observed by child-process drains on a 2 MiB thread stack in the debug and the release build on the generated worst cases.',
+        'note': 'as C02; plus: the model counters are unbounded naturals like the usize counters of the repaired code (u8 arithmetic remains only in positions < 256); '
+                'the 2 MiB stack claim is witnessed, not proved.',
+        'design_ref': 'DESIGN.md §6 C08',
+    },
     'C07': {
         'text': 'Theorem C07: for seven distinct cards the category given by the interval arms read from the source equals the rule-book category of the strongest '
                 'five-card hand (C07_intervals proved symbolically for all indexes 1..7462; combined with C01 and the numbering theorem).',
